@@ -102,3 +102,11 @@ PI("C16", "include behaves like inlining; exit stops its template immediately",
 PI("C17", "A failing output writer is always reported to the caller",
    "Theorems (Props/C17.v): a failing Write is reported and marks the writer; once failed, every later Write fails. Each run renders a generated corpus covering every construct once fault-free and once for EVERY fault position k = 1..writes (plus short writes), in the real engine with a fault-injecting io.Writer and in the model; the oracle on the real observations requires a non-nil error and the accepted bytes to be a prefix of the fault-free output.", "5 C17",
    technique_extra="; fault positions enumerated exhaustively per template")
+
+PI("C05", "A reset or pooled context behaves exactly like a new one",
+   "Theorems (Props/C05.v): for EVERY context state (reachable or not: failed render, exit, open bound tag, aborted loop, pending break depth ...) the model's Reset yields the state of a new context, up to the event log. Each run executes histories of renders of templates exercising every construct and early-termination path on one context with Reset / Release+Acquire in between; every reset-delimited segment is replayed on a new context and compared step by step (output, error); the history is evaluated in the Gallina model; a reflective digest of every Ctx field (also fields added later) of a reset context is compared with a new one.",
+   "5 C05")
+PROPS["C05"]["level_note"] += " Partial: the property's second sentence (bytes returned by earlier renders are never altered later) is heap aliasing in Go, which a pure model cannot exhibit; it is covered by the harness only (Render copies into a caller-owned buffer)."
+PI("C18", "Deferred functions and pooled objects are settled exactly once",
+   "Theorems (Props/C18.v): running the deferred list runs every registered function exactly once, in registration order, stamped with the number of writes made, and empties the list; Reset releases every held pooled object exactly once in acquisition order and nothing stays held. Each run executes histories of renders and resets on one context with harness modifiers that defer functions (unique tags) and acquire pooled objects at top level, in loops, in includes to depth 3, before and after exit; the event log of the real engine (writes of the outermost writer, registrations, runs, acquisitions, releases) is checked against the property and against the model's log.",
+   "5 C18")
